@@ -14,10 +14,12 @@ Record guards := mkG {
   g_msend : bool;    (* multicast loop: likewise *)
   g_werr : bool;     (* worker: `errC <- err` is a select case next to <-ctx.Done() *)
   g_swait : bool;    (* scheduler waits for in-flight workers (ws.stop) before returning *)
-  g_lcancel : bool   (* Listen's deferred function cancels before it waits for the interrupt goroutine *)
+  g_lcancel : bool;  (* Listen's deferred function cancels before it waits for the interrupt goroutine *)
+  g_cfirst : bool    (* the scheduler's error branch calls cancel() before ws.stop() *)
 }.
 Definition extracted : guards :=
-  mkG listener_send_guarded multicast_send_guarded worker_err_guarded sched_waits_workers listen_cancel_before_wait.
+  mkG listener_send_guarded multicast_send_guarded worker_err_guarded sched_waits_workers listen_cancel_before_wait
+      sched_cancels_before_stop.
 
 Definition cap : nat := Z.to_nat requestChanCap.
 
@@ -69,11 +71,13 @@ Definition steps_S (g : guards) (s : st) : list st :=
   | Ssel =>
       when (0 <? q s) [set_pending (set_q s (q s - 1)) (pending s + 1)]        (* ip = <-ipC; schedule a timer *)
       ++ when (sctx s) [set_stopped (set_S s (Sstop false))]                    (* <-ctx.Done(): ws.stop() *)
-      ++ when (0 <? ke s) [set_stopped (set_scancel (set_S (set_ke s (ke s - 1)) (Sstop true)))]  (* err = <-errC: cancel(); ws.stop() *)
+      ++ when (0 <? ke s)                                                       (* err = <-errC: cancel(); ws.stop() *)
+           [if g_cfirst g then set_stopped (set_scancel (set_S (set_ke s (ke s - 1)) (Sstop true)))
+            else set_stopped (set_S (set_ke s (ke s - 1)) (Sstop true))]
   | Sstop e =>
       (* ws.stop() returns when no worker is in flight (if the scheduler waits at all) *)
       when (negb (g_swait g) || ((kw s =? 0) && (ke s =? 0)))
-        [if e then set_fail (set_S s Sdone) else set_S s Sdone]
+        [if e then set_fail (set_scancel (set_S s Sdone)) else set_scancel (set_S s Sdone)]   (* deferred cancel() *)
   | Sdone => []
   end.
 
